@@ -325,6 +325,18 @@ func c20StubRun(c c20StubCase) (*verdict, []string, string, bool) {
 	if inspectOnly && c.Cmd == "reverse" && len(pkgs) > 0 {
 		wantPkgs = pkgs[:1]
 	}
+	if c.Cmd == "run" && len(pkgs) > 0 {
+		// go run: the leading .go files or the first argument name the package,
+		// the rest are the program's arguments
+		n := 0
+		for n < len(pkgs) && strings.HasSuffix(pkgs[n], ".go") {
+			n++
+		}
+		if n == 0 {
+			n = 1
+		}
+		wantPkgs = pkgs[:n]
+	}
 	if len(wantPkgs) == 0 {
 		wantPkgs = []string{"."}
 	}
